@@ -27,7 +27,6 @@ partial def readVal : SExp → Option Val
   | .list [.atom "map", .list (.atom "keys" :: ks), .list (.atom "vals" :: vs)] => do
     pure (.map (← ks.mapM readVal) (← vs.mapM readVal))
   | .list [.atom "box", v] => (readVal v).map .box
-  | .list [.atom "ref", v] => (readVal v).map .ref
   | _ => none
 
 def escStr (s : String) (forChar : Bool) : String :=
@@ -69,12 +68,9 @@ partial def debugVal : Val → String
   | .setv vs => "{" ++ ", ".intercalate (vs.map debugVal) ++ "}"
   | .map ks vs => "{" ++ ", ".intercalate ((ks.zip vs).map fun (k, v) => debugVal k ++ ": " ++ debugVal v) ++ "}"
   | .box v => debugVal v
-  | .ref v => debugVal v
 
 /-- Structural equality looking through references and smart pointers (`PartialEq`). -/
 partial def valEq : Val → Val → Bool
-  | .ref a, b => valEq a b
-  | a, .ref b => valEq a b
   | .box a, b => valEq a b
   | a, .box b => valEq a b
   | .int a, .int b => a == b
@@ -186,7 +182,7 @@ def builtinMethod (b : String) (v : Val) : Option Val :=
   match b with
   | "len" => (valLen v).map fun n => .int n
   | "is_empty" => (valLen v).map fun n => .bool (n == 0)
-  | "id" => some v.strip
+  | "id" => some v
   | "is_some" => match v.autoDeref with | .adt c _ _ => some (.bool (c == "Some")) | _ => none
   | "double" => match v.autoDeref with | .int n => some (.int (2 * n)) | _ => none
   | "first" => match v.autoDeref with | .seq (x :: _) => some x | _ => none
@@ -218,9 +214,9 @@ def rustPrims (m : Meanings) : Prims where
     | some p => p.holds v
     | none => false
   unitPath path v := match m.units.lookup (squash path.text) with
-    | some (some c) => (match v.strip with | .adt c' _ _ => c == c' | _ => false)
+    | some (some c) => (match v with | .adt c' _ _ => c == c' | _ => false)
     | some none => true                       -- the path names nothing: a fresh binding, always matches
-    | none => (match v.strip with | .adt c' _ _ => lastSegment path.text == c' | _ => false)
+    | none => (match v with | .adt c' _ _ => lastSegment path.text == c' | _ => false)
   ctor path c := lastSegment path.text == c
   key e := (m.vals.lookup (squash e.text)).getD (.str e.text)
   method name _ v := match m.methods.lookup name with
